@@ -1069,8 +1069,36 @@ func (e *SpecEnv) call(n *ast.CallExpr) (SV, error) {
 		if err != nil {
 			return SV{}, err
 		}
-		obj, _, _ := types.LookupFieldOrMethod(recv.Typ, true, e.fn.Pkg.Pkg, sel.Sel.Name)
+		obj, mpath, _ := types.LookupFieldOrMethod(recv.Typ, true, e.fn.Pkg.Pkg, sel.Sel.Name)
 		m, ok := obj.(*types.Func)
+		if ok && len(mpath) > 1 {
+			// a method promoted through embedding (p.Val() on a *parser that embeds Dispenser): the receiver is the
+			// embedded object, reached the way the code reaches it (derived reference of a by-value field, or the
+			// pointer stored in the field)
+			cur, typ := recv.T, recv.Typ
+			for _, i := range mpath[:len(mpath)-1] {
+				if pt, isPtr := typ.Underlying().(*types.Pointer); isPtr {
+					typ = pt.Elem()
+				} else {
+					return SV{}, fmt.Errorf("promoted method %s on a struct value: write the embedded field explicitly", sel.Sel.Name)
+				}
+				stt, isS := typ.Underlying().(*types.Struct)
+				if !isS {
+					return SV{}, fmt.Errorf("promoted method %s: unexpected embedding", sel.Sel.Name)
+				}
+				registerStruct(typ)
+				ft := stt.Field(i).Type()
+				if _, isStruct := ft.Underlying().(*types.Struct); isStruct {
+					cur = w.subRef(typ, i, cur)
+					typ = types.NewPointer(ft)
+				} else {
+					a := Addr{kind: "heap", key: "obj:" + types.TypeString(typ, nil), ref: cur, typ: typ}
+					o := w.loadAddr(a, e.state(), typ)
+					cur, typ = w.project(o, typ, []int{i})
+				}
+			}
+			recv = SV{cur, typ}
+		}
 		if !ok {
 			// call of a func-typed field: modelled as a pure dynamic application
 			fv, err := e.selector(sel)
